@@ -299,6 +299,14 @@ fn run(ctx: &RunCtx) -> Report {
             // 3 reachable and confirmed at first, then (before the first refresh) every peer starts
             //   reporting another, unreachable address
             let situation = rng.below(4);
+            // reachable nodes, 1 run in 3: the path back to the node's own address is slow (a self-ping takes
+            // 0.6 - 3 s, longer than the request timeout): the confirmation counts whenever it arrives
+            if situation == 0 && rng.chance(1, 3) {
+                let mut n = sim.net();
+                n.self_path_extra_ms = rng.range(600, 3000);
+                sim.set_net(n);
+                report.probe("adaptive_with_slow_self_path", 1);
+            }
             let mut spec = NodeSpec::new(pub_ip(&mut rng), 6881);
             spec.bootstrap = addrs.iter().map(|a| a.to_string()).collect();
             if rng.chance(1, 4) {
